@@ -13,8 +13,12 @@ SPEC = {
          "eval": "fun c => let '(s, w, d, op, v, cf, im) := c in check_c30 s w d op v cf 300 im", "per_shard": 30},
         {"kind": "VAR", "type": "(N * bool * list ev)",
          "eval": "fun c => let '(k, same, hooks) := c in check_var k same hooks", "per_shard": 200},
+        {"kind": "INTRO", "type": "(N * bool * bool * list ev * list path)",
+         "eval": "fun c => let '(k, same, dyn, hooks, tree) := c in check_tree k same dyn hooks tree", "per_shard": 12,
+         "what_violation": "resolve-hook invocations differ from the response tree (one per resolved field and list item, introspection fields included)"},
     ],
-    "classes": {1: "static-type-name-not-registered", 2: "unvalidated-field-not-in-registry"},
+    "classes": {1: "static-type-name-not-registered", 2: "unvalidated-field-not-in-registry",
+                3: "dynamic-introspection-root-unhooked"},
     "n_quick": 400, "n_thorough": 1600,
     "level": "proof",
     "what_violation": "response with pass-through extensions differs from the response without, or hooks not nested / not in lifecycle order",
@@ -23,7 +27,10 @@ SPEC = {
              "truncated documents (failing parse), unknown fields (failing validation), unknown operation names, failing resolvers; "
              "fixed corpus of cut-off cases and finding witnesses first; plus a variant schema (MergedObject roots, #[graphql(flatten)] on a SimpleObject field "
              "and on an #[Object] method, generic object with concrete names, union, interface) on 16 fixed documents, judged by the lifecycle checker "
-             "and response equality only; per document one case per stack size, comparing the full JSON "
+             "and response equality only; plus an introspection stream (sub-fields of __schema / __type(name:) incl. types, fields, args, enumValues, "
+             "possibleTypes, nested ofType chains, alone and mixed with data fields, static family schema and a dynamic schema, 1..3 extensions) where "
+             "every object key and list element of the response must correspond path-wise to exactly one resolve-hook invocation per extension; "
+             "per document one case per stack size, comparing the full JSON "
              "response, cache policy and headers with the run without extensions and the recorded hook trace (every enter/exit with "
              "arguments) with the model's; non-trivial = extensions attached and data or errors produced"),
     "trusted": ["harness recording extension, world/registry dump and document printer",
